@@ -54,6 +54,7 @@ ODD_SOURCES = {
     "buildtag.go": b"//go:build linux && !windows\n// +build linux,!windows\n\n// Package p does things.\npackage p\n\nimport \"C\"\n\nfunc f() {}\n",
     "oddcomments.go": b"/* leading */ package /* mid */ p /* after */\n\n/*\n multi\n*/\nfunc f( /* in params */ ) { /* body */\n\t// eol\n}\n// trailing comment without newline",
     "unsorted_imports.go": b"package p\n\nimport (\n\t\"os\"\n\t\"fmt\"\n\n\t\"bytes\"\n)\n\nvar _ = fmt.Sprint\nvar _ = os.Args\nvar _ = bytes.NewReader\n",
+    "rawimports.go": b"package p\n\nimport `os`\nimport (\n\tf `fmt`\n\t\"strings\"\n\t_ `embed`\n)\n\nvar _ = f.Sprint(os.Args, strings.ToUpper(``))\n",
     "rawstring.go": b"package p\n\nvar s = `line1\n   line2\t\n`\n\ntype T struct {\n\tA int `json:\"a\"`\n\tB, C string\n}\n",
     "generics.go": b"package p\n\ntype L[T any] struct{ next *L[T]; v T }\n\nfunc Map[T, U any](xs []T, f func(T) U) []U {\n\tvar out []U\n\tfor _, x := range xs { out = append(out, f(x)) }\n\treturn out\n}\n",
     "labels.go": b"package p\n\nfunc f(ch chan int) {\nouter:\n\tfor {\n\t\tselect {\n\t\tcase v := <-ch:\n\t\t\tif v > 0 { continue outer }\n\t\t\tbreak outer\n\t\tdefault:\n\t\t\tgoto done\n\t\t}\n\t}\ndone:\n\treturn\n}\n",
